@@ -436,6 +436,58 @@ Fixpoint wfb (j : jv) : bool :=
 Definition wf (j : jv) : Prop := wfb j = true.
 
 (* ------------------------------------------------------------------------------------------ *)
+(** * UTF-8: [str.encode('utf-8')] and strict [bytes.decode('utf-8')]; bytes are numbers below 256.
+      The encoder is total (Python raises UnicodeEncodeError on a surrogate code point; the text that
+      json.dumps emits with ensure_ascii is pure ASCII, so that never happens in [_mangle]).  The decoder
+      rejects stray and missing continuation bytes, overlong forms, encoded surrogates and values above
+      U+10FFFF, as CPython does ([None] = UnicodeDecodeError, a ValueError). *)
+
+Definition utf8_enc_char (c : N) : list N :=
+  if c <? 128 then [c]
+  else if c <? 2048 then [192 + c / 64; 128 + c mod 64]
+  else if c <? 65536 then [224 + c / 4096; 128 + (c / 64) mod 64; 128 + c mod 64]
+  else [240 + c / 262144; 128 + (c / 4096) mod 64; 128 + (c / 64) mod 64; 128 + c mod 64].
+
+Definition utf8_encode (s : str) : list N := flat_map utf8_enc_char s.
+
+Definition is_cont (b : N) : bool := (128 <=? b) && (b <=? 191).
+
+Definition cons_opt (c : N) (o : option str) : option str :=
+  match o with Some x => Some (c :: x) | None => None end.
+
+Fixpoint utf8_decode (b : list N) : option str :=
+  match b with
+  | [] => Some []
+  | b1 :: r1 =>
+    if b1 <? 128 then cons_opt b1 (utf8_decode r1)
+    else if (194 <=? b1) && (b1 <=? 223) then
+      match r1 with
+      | b2 :: r2 =>
+        if is_cont b2 then cons_opt ((b1 - 192) * 64 + (b2 - 128)) (utf8_decode r2) else None
+      | [] => None
+      end
+    else if (224 <=? b1) && (b1 <=? 239) then
+      match r1 with
+      | b2 :: b3 :: r3 =>
+        if is_cont b2 && is_cont b3 then
+          let c := (b1 - 224) * 4096 + (b2 - 128) * 64 + (b3 - 128) in
+          if (2048 <=? c) && negb ((55296 <=? c) && (c <=? 57343)) then cons_opt c (utf8_decode r3) else None
+        else None
+      | _ => None
+      end
+    else if (240 <=? b1) && (b1 <=? 244) then
+      match r1 with
+      | b2 :: b3 :: b4 :: r4 =>
+        if is_cont b2 && is_cont b3 && is_cont b4 then
+          let c := (b1 - 240) * 262144 + (b2 - 128) * 4096 + (b3 - 128) * 64 + (b4 - 128) in
+          if (65536 <=? c) && (c <=? 1114111) then cons_opt c (utf8_decode r4) else None
+        else None
+      | _ => None
+      end
+    else None
+  end.
+
+(* ------------------------------------------------------------------------------------------ *)
 (** * Structure layer: [DcmMetaExtension] serialisation entry points over the raw content [jv].
       [check_valid] is the validity check of the extension content (modelled in DV.Content); it is
       kept abstract here. *)
@@ -458,13 +510,16 @@ Section Structure.
   Definition from_runtime_repr (e : jv) : res jv :=
     match check_valid e with Ok _ => Ok e | Err x => Err x end.
 
-  (** [__str__]: _mangle(content).decode('utf-8'); no validity check. *)
-  Definition to_str (e : jv) : str := print e.
+  (** [_mangle]: json.dumps(value, indent=4).encode('utf-8'): the extension bytes inside a NIfTI file.
+      [_unmangle]: value.decode('utf-8'), then json.loads with OrderedDict pairs (either step failing
+      is a ValueError). *)
+  Definition mangle (e : jv) : list N := utf8_encode (print e).
+  Definition unmangle (b : list N) : option jv :=
+    match utf8_decode b with Some s => parse s | None => None end.
 
-  (** [_mangle] / [_unmangle]: the extension bytes inside a NIfTI file.  The text is pure ASCII
-      (ensure_ascii), so its UTF-8 encoding is the identity on code points. *)
-  Definition mangle (e : jv) : str := print e.
-  Definition unmangle (b : str) : option jv := parse b.
+  (** [__str__]: _mangle(content).decode('utf-8'); no validity check. *)
+  Definition to_str (e : jv) : res str :=
+    match utf8_decode (mangle e) with Some s => Ok s | None => Err EValue end.
 
   (** File layer.  [store b] = what nibabel hands back as the extension bytes after
       [NiftiWrapper.to_filename] + [nb.load] ([None]: the file cannot be read back).
